@@ -116,10 +116,11 @@ def run_case(desc, ctx):
                     txt = txt[:-1]
                 ctx.write('names.txt', txt)
                 src = ['-f', ctx.path('names.txt')]
-            outargs = [] if inplace else ['-o', ctx.path('out')]
-            result_file = ctx.path('work.skf') if inplace else ctx.path('out.skf')
-            if os.path.exists(ctx.path('out.skf')):
-                os.remove(ctx.path('out.skf'))
+            oname = rng.choice(['out', 'out', 'kept.v2'])                   # output prefixes with and without dots
+            outargs = [] if inplace else ['-o', ctx.path(oname)]
+            result_file = ctx.path('work.skf') if inplace else ctx.path(oname + '.skf')
+            if os.path.exists(ctx.path(oname + '.skf')):
+                os.remove(ctx.path(oname + '.skf'))
             pd = ctx.sh(b, 'delete', '-s', ctx.path('work.skf'), *outargs, *src)
             if variant == 'chk':
                 res.count('chk_runs')
